@@ -343,7 +343,16 @@ fn spawn_on<'vm>(
     use crate::value::PartialApplicationDataDef;
 
     let WithVM { vm, value: action } = action;
-    let mut action = OwnedFunction::<Action<A>>::from_value(&thread, action.get_variant());
+    // Only `vm` itself and its descendants may refer to the values of `vm`, any other thread
+    // needs its own copy of the action
+    let mut action = if thread.is_descendant_of(vm) {
+        OwnedFunction::<Action<A>>::from_value(&thread, action.get_variant())
+    } else {
+        match thread.deep_clone_value(vm, action.get_variant().get_value()) {
+            Ok(action) => OwnedFunction::<Action<A>>::from_value(&thread, action.get_variant()),
+            Err(err) => return IO::Exception(err.to_string()),
+        }
+    };
 
     let future = async move {
         match action.call_async().await {
